@@ -92,6 +92,7 @@ static bool body_perm(const Case &c, Ctx &ctx)
     bool nc = false, edge = false;
     for (int i = 0; i < 24; i++) { if (c.v[i] >= PR) nc = true; if (c.v[i] < 4 || c.v[i] % PR >= PR - 4) edge = true; }
     if (nc) ctx.nt("perm:non-canonical-element"); else if (edge) ctx.nt("perm:edge-element"); else ctx.cls("perm:plain-state");
+    { int eq = 0; for (int i = 0; i < 12; i++) if (A[i] == B[i]) eq++; if (eq == 12) ctx.cls("perm:pair-identical-states"); else if (eq >= 4) ctx.cls("perm:pair-states-share-elements(>=4)"); }
     return check_perm(A, B, ctx);
 }
 // payload: X[12] (target state entering a linear layer), B[12], layer
@@ -163,12 +164,24 @@ static uint64_t hashed_elem(uint64_t seed, uint64_t i)
     default: return 0;
     }
 }
-static uint64_t lh_elem(const Case &c, uint64_t i, int which) { if (which == 0 && 2 + i < c.v.size()) return c.v[2 + i]; return hashed_elem(c.v[1] + which * 0x9e37, i); }
+// second input of the paired (AVX512) variant: independent of the first one, or RELATED to it (identical / one element changed / last element
+// changed / a common prefix): the two digests must still be those of the two inputs
+static int lh_rel(const Case &c) { int m = (int)((c.v[1] >> 56) & 7); return m < 4 ? 0 : m - 3; }
+static uint64_t lh_elem(const Case &c, uint64_t i, int which)
+{
+    if (which == 0) { if (2 + i < c.v.size()) return c.v[2 + i]; return hashed_elem(c.v[1], i); }
+    const int rel = lh_rel(c); const uint64_t len = c.v[0], pos = len ? (c.v[1] >> 20) % len : 0;
+    bool same = rel == 1 || (rel == 2 && i != pos) || (rel == 3 && i + 1 != len) || (rel == 4 && i < pos);
+    if (same) return lh_elem(c, i, 0);
+    uint64_t y = hashed_elem(c.v[1] + 0x9e37, i); if (rel && y == lh_elem(c, i, 0)) y ^= 1;
+    return y;
+}
 static bool body_linear_hash(const Case &c, Ctx &ctx)
 {
     uint64_t len = c.v[0];
     if (len <= 4) ctx.nt("lh:pass-through(<=4)"); else if (len <= 8) ctx.nt("lh:single-block(5..8)"); else if (len % 8) ctx.nt("lh:partial-last-block"); else ctx.cls("lh:multiple-of-8");
     if (len == 0) ctx.cls("lh:empty");
+    { static const char *RN[] = {nullptr, "lh:pair-identical-inputs", "lh:pair-differs-in-one-element", "lh:pair-differs-in-last-element", "lh:pair-common-prefix"}; if (lh_rel(c) && len) ctx.cls(RN[lh_rel(c)]); }
     std::vector<uint64_t> x(len), y(len);
     for (uint64_t i = 0; i < len; i++) { x[i] = lh_elem(c, i, 0); y[i] = lh_elem(c, i, 1); }
     uint64_t wx[4], wy[4];
@@ -201,6 +214,23 @@ static bool body_linear_hash(const Case &c, Ctx &ctx)
 #endif
     return true;
 }
+// payload [len, seed]: very long inputs (more than 2^24 elements: block counts and byte counts beyond float / 32-bit exactness)
+static bool body_lh_huge(const Case &c, Ctx &ctx)
+{
+    const uint64_t len = c.v[0];
+    ctx.nt(len % 8 == 1 ? "lh:huge(>2^24-elements,len%8==1)" : "lh:huge(>2^24-elements)");
+    uint64_t *in = (uint64_t *)malloc(len * sizeof(uint64_t));
+    for (uint64_t i = 0; i < len; i++) in[i] = hashed_elem(c.v[1], i);
+    uint64_t w[4]; refp::linear_hash(w, in, len);
+    E out[4]; std::string why;
+    PoseidonGoldilocks::linear_hash_seq(out, (E *)in, len);
+    for (int i = 0; i < 4 && why.empty(); i++) if (out[i].fe % PR != w[i]) why = "linear_hash_seq len=" + std::to_string(len) + ": digest[" + std::to_string(i) + "] got " + hx(out[i].fe % PR) + " want " + hx(w[i]);
+    if (why.empty()) { PoseidonGoldilocks::linear_hash(out, (E *)in, len);
+        for (int i = 0; i < 4 && why.empty(); i++) if (out[i].fe % PR != w[i]) why = "linear_hash (AVX2) len=" + std::to_string(len) + ": digest[" + std::to_string(i) + "] got " + hx(out[i].fe % PR) + " want " + hx(w[i]); }
+    free(in);
+    if (!why.empty()) return ctx.fail(why);
+    return true;
+}
 static std::string desc_lh(const Case &c)
 {
     std::string s = c.prop + " len=" + std::to_string(c.v[0]) + " seed=" + hx(c.v[1]) + " explicit=[";
@@ -223,6 +253,7 @@ static bool body_merkle(const Case &c, Ctx &ctx)
     bool nt = false;
     if (rows != 64) nt = true;
     if (rows == 1) ctx.cls("mt:one-row");
+    if (rows >= 2048) ctx.cls("mt:tall-tree(>=2^11-rows)");
     if (cols == 0) { ctx.cls("mt:zero-cols"); nt = true; }
     if (dim > 1) { ctx.cls("mt:dim>1"); nt = true; }
     if (is_batch(variant)) { if (cols % batch) { ctx.cls("mt:batch-not-dividing-cols"); nt = true; } if (batch >= cols) ctx.cls("mt:batch>=cols"); else ctx.cls("mt:several-batches"); }
@@ -317,7 +348,11 @@ int main(int argc, char **argv)
 {
     for (int i = 1; i + 1 < argc; i++) if (std::string(argv[i]) == "--level") g_level = atoi(argv[i + 1]);
     std::vector<pbt::PropDef> props;
-    props.push_back({"c06.perm", [] { return rc::gen::map(rc::gen::pair(rc::gen::weightedOneOf<std::vector<uint64_t>>({{6, g::fe_vec(24)}, {1, rc::gen::map(g::fe(), [](uint64_t x) { return std::vector<uint64_t>(24, x); })},
+    props.push_back({"c06.perm", [] { return rc::gen::map(rc::gen::pair(rc::gen::weightedOneOf<std::vector<uint64_t>>({{6, g::fe_vec(24)},
+                                         // the two states of a pair are RELATED: identical, or differing only in the capacity part / only in the rate part / in one element
+                                         {2, rc::gen::apply([](std::vector<uint64_t> v, uint64_t m) { int rel = (int)(m % 5); int one = (int)((m >> 8) % 12);
+                                                 for (int i = 0; i < 12; i++) { bool keep = rel == 0 || (rel == 1 && i < 8) || (rel == 2 && i >= 8) || (rel == 3 && i != one) || (rel == 4 && i >= 4); if (keep) v[12 + i] = v[i]; else if (v[12 + i] == v[i]) v[12 + i] ^= 1; }
+                                                 return v; }, g::fe_vec(24), g::uni64())}, {1, rc::gen::map(g::fe(), [](uint64_t x) { return std::vector<uint64_t>(24, x); })},
                                          {1, rc::gen::apply([](uint64_t x, int pos) { std::vector<uint64_t> v(24, 0); v[pos] = x; v[12 + (pos * 5) % 12] = x; return v; }, g::fe(), g::irange(0, 11))}}), rc::gen::just(0)),
                                          [](const std::pair<std::vector<uint64_t>, int> &p) { return p.first; }); }, body_perm, 3, false, desc_perm, 100});
     props.push_back({"c06.backsolved", [] { return rc::gen::apply([](std::vector<uint64_t> v, std::vector<g::P2> small, uint64_t flags) {
@@ -334,14 +369,18 @@ int main(int argc, char **argv)
     // C07: every length 0..200 exhaustively (several contents each), random lengths up to 5000
     { pbt::PropDef p{"c07.lengths", [] { return rc::gen::just(std::vector<uint64_t>{0, 0}); }, body_linear_hash, 0, false, desc_lh, 100};
       p.enum_count = [] { return (uint64_t)(201 * (g_level >= 1 ? 16 : 4)); }; p.enum_at = [](uint64_t i) { return std::vector<uint64_t>{((i % 201) * 37) % 201 /* every length once per round, in a scrambled order: consecutive calls differ in their residue mod 8 */, pbt::mix(i, 3)}; }; props.push_back(p); }
+    { pbt::PropDef p{"c07.huge", [] { return rc::gen::just(std::vector<uint64_t>{(1ull << 24) + 1, 7}); }, body_lh_huge, 0, false, desc_lh, 100};
+      p.enum_count = [] { return (uint64_t)(g_level >= 1 ? 4 : 1); }; p.enum_at = [](uint64_t i) { static const uint64_t L[] = {(1ull << 24) + 1, (1ull << 24) + 11, (1ull << 25) + 1, (1ull << 24) + 8}; return std::vector<uint64_t>{L[i % 4], pbt::mix(i, 77)}; }; props.push_back(p); }
     props.push_back({"c07.random", [] { return rc::gen::apply([](uint64_t len, uint64_t seed, std::vector<uint64_t> ex) { std::vector<uint64_t> v{len, seed}; if (ex.size() > len) ex.resize(len); v.insert(v.end(), ex.begin(), ex.end()); return v; },
                          rc::gen::weightedOneOf<uint64_t>({{4, g::range(0, 40)}, {3, g::range(0, 300)}, {1, g::range(0, 5000)}}), g::uni64(), rc::gen::container<std::vector<uint64_t>>(g::fe())); }, body_linear_hash, 1, false, desc_lh, 40});
     { pbt::PropDef p{"c08.enum", [] { return rc::gen::just(std::vector<uint64_t>{0, 0, 0, 1, 1, 0, 0}); }, body_merkle, 0, true, desc_merkle, 100};
       p.enum_count = [] { return (uint64_t)merkle_space().size(); }; p.enum_at = [](uint64_t i) { return merkle_space()[i]; }; props.push_back(p); }
     props.push_back({"c08.random", [] { return rc::gen::exec([] {
-                         int v = *g::irange(0, NVAR - 1); int lr = *rc::gen::weightedOneOf<int>({{5, g::irange(0, 5)}, {1, g::irange(6, g_level >= 1 ? 10 : 8)}});
+                         // mostly small trees, regularly medium ones, now and then TALL ones (2^11..2^16 rows, narrow) -- every height occurs
+                         int v = *g::irange(0, NVAR - 1); int lr = *rc::gen::weightedOneOf<int>({{50, g::irange(0, 5)}, {10, g::irange(6, g_level >= 1 ? 10 : 8)}, {2, g::irange(9, 16)}});
                          uint64_t cols = *rc::gen::weightedOneOf<uint64_t>({{6, g::range(0, 20)}, {2, g::range(21, 140)}});
                          if (lr > 7 && cols > 20) cols %= 20;
+                         if (lr > 10) cols %= 6;
                          uint64_t dim = (uint64_t)*g::irange(1, 3);
                          uint64_t batch = *rc::gen::weightedOneOf<uint64_t>({{5, g::range(1, cols + 3)}, {1, rc::gen::just<uint64_t>(1ull << 20)}, {1, g::range(1, 1ull << 40)}});
                          int nth = *rc::gen::elementOf(std::vector<int>{0, 1, 2, 3, 5, 16, 33});
